@@ -1,6 +1,9 @@
 package mon
 
 import (
+	"sync"
+	"sort"
+	"hash/fnv"
 	"bytes"
 	"encoding/binary"
 	"fmt"
@@ -582,7 +585,16 @@ func c02Input(w *core.W, b []byte, kind string) {
 	}
 	// header-driven decoding of RDATA under every type: the input as RDATA of a record
 	if len(b) <= 2000 {
-		for _, t := range []uint16{41, 64, 65, 42, 47, 50, 55, 45, 260, 46, 6, 16, 35, 257, 249, 250, 62, 37} {
+		ts := []uint16{41, 64, 65, 42, 47, 50, 55, 45, 260, 46, 6, 16, 35, 257, 249, 250, 62, 37}
+		// plus five more types of the registry, chosen by the input, so that every type's RDATA decoder
+		// meets every kind of hostile input over a run
+		all := c02AllTypes()
+		h := fnv.New32a()
+		h.Write(b)
+		for k, st := 0, int(h.Sum32()%uint32(len(all))); k < 5; k++ {
+			ts = append(ts, all[(st+k)%len(all)])
+		}
+		for _, t := range ts {
 			h := dns.RR_Header{Name: ".", Rrtype: t, Class: 1, Ttl: 0, Rdlength: uint16(len(b))}
 			in3 := make([]byte, len(b))
 			copy(in3, b)
@@ -667,6 +679,19 @@ func u16at(b []byte, off int) int {
 		return -1
 	}
 	return int(binary.BigEndian.Uint16(b[off:]))
+}
+
+var c02TypesOnce sync.Once
+var c02Types []uint16
+
+func c02AllTypes() []uint16 {
+	c02TypesOnce.Do(func() {
+		for t := range dns.TypeToRR {
+			c02Types = append(c02Types, t)
+		}
+		sort.Slice(c02Types, func(i, j int) bool { return c02Types[i] < c02Types[j] })
+	})
+	return c02Types
 }
 
 func c02Mutations(w *core.W, j int) {
